@@ -20,7 +20,7 @@ func init() {
 	mc.Register(&mc.Property{
 		ID:    "C09",
 		Title: "Statements compose sequentially",
-		Rule: "all statement sequences of length 2..L over the statement alphabet plus set_tx_meta / set_account_meta with colliding keys x all initial sheets x EVERY split point k; then BFS over histories to depth D (last-statement split) deduplicated on the visible balance vector; " +
+		Rule: "all statement sequences of length 2..L over the statement alphabet plus set_tx_meta / set_account_meta with colliding keys x all initial sheets x EVERY split point k; the same for sequences over the variable-sharing alphabet (incl. arithmetic on the variables) and the edge-relation alphabet; then BFS over histories to depth D (last-statement split) deduplicated on the visible balance vector; " +
 			"oracle: run(S1..Sn,B) == run(S1..Sk,B) ++ run(Sk+1..Sn,B') for every k, and == the one-by-one chain, where B' is B updated by the postings and by the save rule in statement order; metadata of the whole == key-wise override of the parts; the whole fails iff a part fails, with the same error class; " +
 			"non-trivial = a later statement draws on an account that an earlier statement credited, debited or saved from; distinct = script text + sheet",
 		Assumptions: []string{"scripts have no variables reading balances (the property's own restriction)", "the save rule used to compute B' is the one stated in C08"},
